@@ -38,6 +38,11 @@ pub(crate) trait Session {
     /// The shared cell holding why the session (or its connection) stopped
     fn session_stop_reason(&self) -> &Arc<OnceLock<SessionStopReason>>;
 
+    /// Fails the pending outcome of every delivery that is still unsettled on the
+    /// session's sending links. Called once the session has stopped: no
+    /// disposition can arrive any more, and the stop reason has been recorded.
+    fn fail_unsettled_deliveries(&mut self);
+
     /// The shared cell holding why the connection stopped
     fn connection_stop_reason(&self) -> &Arc<OnceLock<ConnectionStopReason>>;
 
